@@ -1,8 +1,9 @@
 (* Properties/C13.v — ECDSA signatures are valid, canonical, deterministic; the verifier is exact.
    Only statements closed by [exact lemma], their non-vacuity examples, refutation witnesses for the classes
    excluded by a guard, and Print Assumptions.
-   lib_*  = bitcoinlib/keys.py (Signature.create / parse_bytes / __init__ / verify, sign, verify) with the repairs of
-            fixes/C13-1 (integer division in the low-S step) applied; spec_* / ecdsa_* / g_* = SEC 1 ECDSA,
+   lib_*  = bitcoinlib/keys.py (Signature.create / parse_bytes / __init__ / verify, sign, verify) with the repairs
+            fixes/C13-1 (integer division in the low-S step) and fixes/C13-2 (DER dispatch for every length but 64)
+            applied; *_prefix = the code before them; spec_* / ecdsa_* / g_* = SEC 1 ECDSA,
             BIP62/146 low S, BIP66 strict DER. *)
 From Coq Require Import ZArith List Bool Znumtheory.
 From Coq.Strings Require Import Byte.
@@ -42,7 +43,7 @@ Theorem lib_sign_verifies : forall d msg k ht r s enc Q,
   secp_laws ->
   match k with Some k0 => 1 <= k0 < secp_n | None => True end ->
   secp_pub d = Some Q -> coords_reduced Q = true -> lib_on_curve Q = true ->
-  lib_digest msg <> [] -> 64 < Z.of_nat (length enc) ->
+  lib_digest msg <> [] -> Z.of_nat (length enc) <> 64 ->
   lib_sign d msg k ht = Some (r, s, enc) ->
   lib_verify (lib_digest msg) enc Q = Some true.
 Proof. exact Proofs.Ecdsa.lib_sign_verifies. Qed.
@@ -90,9 +91,9 @@ Theorem lib_sign_encoding : forall d msg k ht r s enc, lib_sign d msg k ht = Som
   spec_parse enc = Some (r, s, ht).
 Proof. exact Proofs.Ecdsa.lib_sign_encoding. Qed.
 
-(* and parse_bytes reads it back (when longer than 64 bytes; the others are finding short_der_rejected) *)
+(* and parse_bytes reads it back (unless it is exactly 64 bytes long: finding der64_read_as_raw) *)
 Theorem lib_sign_parse_roundtrip : forall d msg k ht r s enc, lib_sign d msg k ht = Some (r, s, enc) ->
-  64 < Z.of_nat (length enc) -> lib_parse enc = Some (r, s, ht).
+  Z.of_nat (length enc) <> 64 -> lib_parse enc = Some (r, s, ht).
 Proof. exact Proofs.Ecdsa.lib_sign_parse_roundtrip. Qed.
 
 Example der_edges :
@@ -107,18 +108,12 @@ Proof. repeat split; vm_compute; reflexivity. Qed.
        nonce of (d, SHA256 (hex text of the digest)): a function of key and message only --- *)
 Theorem nonce_is_rfc6979 : forall d msg ht, 0 <= ht < 256 ->
   lib_sign d msg None ht =
-  match spec_sign d (lib_z (lib_digest msg)) (rfc6979_nonce d (sha256 (hex_ascii (lib_digest msg)))) with
-  | Some (r, s) => Some (r, s, der_enc r s ++ [zb ht])
-  | None => None
-  end.
+  with_der ht (spec_sign d (lib_z (lib_digest msg)) (rfc6979_nonce d (sha256 (hex_ascii (lib_digest msg))))).
 Proof. exact lib_sign_deterministic. Qed.
 
 Theorem explicit_nonce_is_used : forall d msg k ht, 0 <= ht < 256 -> k <> 0 ->
   lib_sign d msg (Some k) ht =
-  match spec_sign d (lib_z (lib_digest msg)) k with
-  | Some (r, s) => Some (r, s, der_enc r s ++ [zb ht])
-  | None => None
-  end.
+  with_der ht (spec_sign d (lib_z (lib_digest msg)) k).
 Proof. exact lib_sign_explicit. Qed.
 
 Example nonce_witness :
@@ -130,36 +125,47 @@ Proof. exact w5_nonce. Qed.
        point, outside the three recorded classes, verify = standard ECDSA on the strictly decoded input;
        None = refused with an exception, Some b = the boolean returned --- *)
 Theorem lib_verify_exact : forall dg sig Q,
-  dg <> [] -> short_der sig = false -> lax_der sig = false -> coords_reduced Q = true ->
+  dg <> [] -> der64 sig = false -> lax_der sig = false -> coords_reduced Q = true ->
   lib_verify dg sig Q = spec_verify (lib_z dg) sig Q.
 Proof. exact Proofs.Ecdsa.lib_verify_exact. Qed.
 
 (* the signature reader alone, same guards: parse_bytes followed by the range checks of Signature.__init__ is the
    strict reader followed by the same range checks *)
-Theorem lib_parse_exact : forall sig, short_der sig = false -> lax_der sig = false ->
+Theorem lib_parse_exact : forall sig, der64 sig = false -> lax_der sig = false ->
   filt (lib_parse sig) = filt (spec_parse sig).
 Proof. exact parse_agree. Qed.
 
 Example lib_verify_exact_witness :
-  short_der w3_strict = false /\ lax_der w3_strict = false /\ coords_reduced w3_Q = true /\
+  der64 w3_strict = false /\ lax_der w3_strict = false /\ coords_reduced w3_Q = true /\
   lib_verify w3_dg w3_strict w3_Q = Some true /\ spec_verify (lib_z w3_dg) w3_strict w3_Q = Some true.
 Proof. exact w3_strict_agrees. Qed.
 
-(* finding short_der_rejected: a valid, BIP66-strict signature of 49 bytes is refused *)
-Example lib_verify_short_der_refuted :
-  short_der w2_sig = true /\ lax_der w2_sig = false /\ coords_reduced w2_Q = true /\
-  lib_verify w2_dg w2_sig w2_Q = None /\ spec_verify (lib_z w2_dg) w2_sig w2_Q = Some true.
-Proof. exact w2_short_der_rejected. Qed.
+(* fixed finding short_der_rejected: a valid, BIP66-strict signature of 49 bytes was refused by the dispatch the
+   source had before fix C13-2 (len > 64); the repaired dispatch reads and verifies it *)
+Example lib_verify_short_der_witness :
+  length w2_sig = 49%nat /\ is_strict_der w2_sig = true /\
+  lib_parse_prefix w2_sig = None /\ lib_parse w2_sig = Some (w2_r, w2_r, 1) /\
+  der64 w2_sig = false /\ lax_der w2_sig = false /\ coords_reduced w2_Q = true /\
+  lib_verify w2_dg w2_sig w2_Q = Some true /\ spec_verify (lib_z w2_dg) w2_sig w2_Q = Some true.
+Proof. exact w2_short_der. Qed.
+
+(* finding der64_read_as_raw (the guard that remains): BIP66-strict, exactly 64 bytes, read as raw r||s *)
+Example lib_parse_der64_refuted :
+  length w6_sig = 64%nat /\ der64 w6_sig = true /\ lax_der w6_sig = false /\
+  filt (spec_parse w6_sig) = Some (2 ^ 223, 2 ^ 222, 1) /\
+  filt (lib_parse w6_sig) = Some (of_be (firstn 32 w6_sig), of_be (skipn 32 w6_sig), 1) /\
+  of_be (firstn 32 w6_sig) <> 2 ^ 223.
+Proof. exact w6_der64_read_as_raw. Qed.
 
 (* finding lax_der_accepted: a junk byte inside the SEQUENCE after s — not BIP66 — is accepted *)
 Example lib_verify_lax_der_refuted :
-  short_der w3_lax = false /\ lax_der w3_lax = true /\ is_strict_der w3_lax = false /\
+  der64 w3_lax = false /\ lax_der w3_lax = true /\ is_strict_der w3_lax = false /\
   lib_verify w3_dg w3_lax w3_Q = Some true /\ spec_verify (lib_z w3_dg) w3_lax w3_Q = None.
 Proof. exact w3_lax_der_accepted. Qed.
 
 (* finding pubkey_coordinate_unreduced (C04 finding 14 seen from verify): x spelled x + p is accepted *)
 Example lib_verify_unreduced_key_refuted :
-  short_der w4_sig = false /\ lax_der w4_sig = false /\ coords_reduced w4_Q = false /\
+  der64 w4_sig = false /\ lax_der w4_sig = false /\ coords_reduced w4_Q = false /\
   lib_verify w4_dg w4_sig w4_Q = Some true /\ spec_verify (lib_z w4_dg) w4_sig w4_Q = None /\
   spec_verify (lib_z w4_dg) w4_sig (1, w4_y) = Some true.
 Proof. exact w4_unreduced_key_accepted. Qed.
